@@ -28,7 +28,7 @@ inductive Call where
   | adv (n : Nat)
 deriving Repr, DecidableEq, Inhabited
 
-abbrev Resp := Option DocNum
+abbrev Resp := Option Nat
 
 /-- step function of a child searcher with state type `ι` -/
 abbrev Step (ι : Type) := ι → Call → Resp × ι
@@ -425,6 +425,33 @@ def mustNotExcludes (cs : Step ι) (s : BoolS ι) (cand mn : Nat) : Bool × Bool
   else if mn = cand then (true, advanceNextMust cs s)
   else (false, s)
 
+/-- the must-not test at the head of the loop body (`if s.currMustNot != nil { … }`):
+(candidate excluded?, state) — when excluded, `advanceNextMust` has already been called -/
+def mustNotPhase (cs : Step ι) (s : BoolS ι) (cand : Nat) : Bool × BoolS ι :=
+  match s.currMustNot with
+  | some mn => mustNotExcludes cs s cand mn
+  | none => (false, s)
+
+/-- the should test of the loop body: (does the candidate match?, state after `advanceNextMust`).
+`shouldCmpOrNil` is 1 when `currShould == nil`. Every path — `break` with a match, or falling through
+to the bottom of the loop — calls `advanceNextMust` exactly once. -/
+def shouldPhase (cs : Step ι) (s : BoolS ι) (cand : Nat) : Bool × BoolS ι :=
+  match s.currShould with
+  | some sh =>
+    if sh < cand then
+      -- advance should searcher to our candidate entry
+      let r := callOpt cs s.should (.adv cand)
+      let s1 := { s with should := r.2, currShould := r.1 }
+      if r.1 = some cand then (true, advanceNextMust cs s1)           -- score bonus matches should
+      else if s.shouldMin = 0 then (true, advanceNextMust cs s1)      -- match is OK anyway
+      else (false, advanceNextMust cs s1)
+    else if sh = cand then (true, advanceNextMust cs s)
+    else if s.should.isNone || s.shouldMin = 0 then (true, advanceNextMust cs s)
+    else (false, advanceNextMust cs s)
+  | none =>
+    if s.should.isNone || s.shouldMin = 0 then (true, advanceNextMust cs s)
+    else (false, advanceNextMust cs s)
+
 /-- `nextInternal`: the `for s.currentMatch != nil` loop -/
 def nextInternal (cs : Step ι) : Nat → BoolS ι → Resp × BoolS ι
   | 0, s => (none, s)
@@ -432,28 +459,11 @@ def nextInternal (cs : Step ι) : Nat → BoolS ι → Resp × BoolS ι
     match s.currentMatch with
     | none => (none, s)
     | some cand =>
-      let ex : Bool × BoolS ι := match s.currMustNot with
-        | some mn => mustNotExcludes cs s cand mn
-        | none => (false, s)
+      let ex := mustNotPhase cs s cand
       if ex.1 then nextInternal cs f ex.2            -- `continue`
       else
-        let s := ex.2
-        match s.currShould with
-        | some sh =>
-          if sh < cand then
-            -- advance should searcher to our candidate entry
-            let r := callOpt cs s.should (.adv cand)
-            let s1 := { s with should := r.2, currShould := r.1 }
-            if r.1 = some cand then (some cand, advanceNextMust cs s1)
-            else if s.shouldMin = 0 then (some cand, advanceNextMust cs s1)
-            else nextInternal cs f (advanceNextMust cs s1)
-          else if sh = cand then (some cand, advanceNextMust cs s)
-          else if s.should.isNone || s.shouldMin = 0 then (some cand, advanceNextMust cs s)
-          else nextInternal cs f (advanceNextMust cs s)
-        | none =>
-          -- shouldCmpOrNil = 1
-          if s.should.isNone || s.shouldMin = 0 then (some cand, advanceNextMust cs s)
-          else nextInternal cs f (advanceNextMust cs s)
+        let r := shouldPhase cs ex.2 cand
+        if r.1 then (some cand, r.2) else nextInternal cs f r.2
 
 /-- `Next` after the `done` / `initialized` tests -/
 def nextCore (cs : Step ι) (fuel : Nat) (s : BoolS ι) : Resp × BoolS ι :=
@@ -462,21 +472,28 @@ def nextCore (cs : Step ι) (fuel : Nat) (s : BoolS ι) : Resp × BoolS ι :=
   | none => (none, { r.2 with done := true })
   | some d => (some d, r.2)
 
+/-- `if s.mustSearcher != nil { s.currMust = s.mustSearcher.Advance(number) }` -/
+def advMust (cs : Step ι) (s : BoolS ι) (n : Nat) : BoolS ι :=
+  match s.must with
+  | some k => let r := cs k (.adv n); { s with must := some r.2, currMust := r.1 }
+  | none => s
+
+/-- `if s.shouldSearcher != nil { s.currShould = s.shouldSearcher.Advance(number) }` -/
+def advShould (cs : Step ι) (s : BoolS ι) (n : Nat) : BoolS ι :=
+  match s.should with
+  | some k => let r := cs k (.adv n); { s with should := some r.2, currShould := r.1 }
+  | none => s
+
+/-- the must-not cursor "isn't tracked by currentID": it is advanced only when nil or behind `number` -/
+def advMustNotIfBehind (cs : Step ι) (s : BoolS ι) (n : Nat) : BoolS ι :=
+  match s.mustNot with
+  | some k =>
+    let behind := match s.currMustNot with | none => true | some mn => decide (mn < n)
+    if behind then let r := cs k (.adv n); { s with mustNot := some r.2, currMustNot := r.1 } else s
+  | none => s
+
 def advanceIfTrailing (cs : Step ι) (s : BoolS ι) (n : Nat) : BoolS ι :=
-  let rm := callOpt cs s.must (.adv n)
-  let s := if s.must.isSome then { s with must := rm.2, currMust := rm.1 } else s
-  let rs := callOpt cs s.should (.adv n)
-  let s := if s.should.isSome then { s with should := rs.2, currShould := rs.1 } else s
-  let s :=
-    if s.mustNot.isSome then
-      -- "whose cursor isn't tracked by currentID": only when nil or behind `number`
-      let behind := match s.currMustNot with | none => true | some mn => decide (mn < n)
-      if behind then
-        let rn := callOpt cs s.mustNot (.adv n)
-        { s with mustNot := rn.2, currMustNot := rn.1 }
-      else s
-    else s
-  setCurrent s
+  setCurrent (advMustNotIfBehind cs (advShould cs (advMust cs s n) n) n)
 
 def step (cs : Step ι) (fuel : Nat) (s : BoolS ι) : Call → Resp × BoolS ι
   | .next =>
@@ -719,9 +736,9 @@ def Plan.rewriteNone (o : ScoreNone) (bound : Nat) : Plan → Plan × Nat
     | some ls => (.leaf .unadorned (unionAll bound ls), if o.keepMin then min else 0)
     | none => (.disj ps' min, min)
   | .bool m s n _ =>
-    let m' := m.map (fun p => (p.rewriteNone o bound).1)
-    let s' := s.map (fun p => p.rewriteNone o bound)
-    let n' := n.map (fun p => (p.rewriteNone o bound).1)
+    let m' := match m with | some p => some (p.rewriteNone o bound).1 | none => none
+    let s' := match s with | some p => some (p.rewriteNone o bound) | none => none
+    let n' := match n with | some p => some (p.rewriteNone o bound).1 | none => none
     (.bool m' (s'.map (·.1)) n' (match s' with | some r => r.2 | none => 0), 0)
   | .filt p acc => (.filt (p.rewriteNone o bound).1 acc, 0)
   | .phrase p ok => (.phrase p ok, 0)     -- phrase sets IncludeTermVectors: no unadorned rewrite below it
